@@ -12,8 +12,8 @@ ID = "C18"
 LEAN_MODEL_TARGETS = ["drv_c18"]
 LEAN_PROOF_TARGETS = ["PyroProps.C18"]
 AUDIT_FILES = ["PyroModel/Lock.lean", "PyroModel/Pool.lean", "PyroModel/Gen/C18.lean", "PyroProofs/Lock.lean",
-               "PyroProofs/Pool.lean", "PyroProps/C18.lean"]
-THEOREMS = ["Pyro.C18.C18_gen_shape_ok", "Pyro.C18.C18_gen_source", "Pyro.C18.C18_methods_atomic",
+               "PyroProofs/Pool.lean", "PyroProofs/PoolProbe.lean", "PyroProps/C18.lean"]
+THEOREMS = ["Pyro.C18.C18_gen_shape_ok", "Pyro.C18.C18_gen_source", "Pyro.C18.C18_gen_behaviour", "Pyro.C18.C18_methods_atomic",
             "Pyro.C18.C18_bounded", "Pyro.C18.C18_once_or_refused", "Pyro.C18.C18_refused_iff_full",
             "Pyro.C18.C18_no_lost_wakeup", "Pyro.C18.C18_pending_runs", "Pyro.C18.C18_close",
             "Pyro.C18.C18_close_exits", "Pyro.C18.C18_race_overlimit", "Pyro.C18.C18_race_close",
@@ -27,7 +27,8 @@ RULE = ("(a) sequential: generated op lists (submit / let job k end normally or 
         "of every set/flag/event/lock operation: bounded-preemption DFS (2 quick / 3 thorough) in seeded random order, then seeded "
         "random schedules; every final state must be one the coarse model reaches under some interleaving, and the oracle checks "
         "the property directly at every scheduling point. non-trivial = a run with >= 2 context switches between pool threads "
-        "or a sequential list with >= 1 accepted job; distinct = distinct (scenario, schedule) / op list")
+        "or a sequential list with >= 1 accepted job; distinct = distinct (scenario, schedule) / op list; (c) oracle only: "
+        "sequential histories in which Thread.start() of a new worker fails (RuntimeError) — the pool must be as before")
 ASSUMPTIONS = ["single set/attribute operations are atomic (GIL)",
                "preemption matters only at accesses of Pool.idle/busy/closed, Worker.job_available, Pool.count_lock, sleep and join",
                "the OS scheduler is replaced by the enumerated / random schedules",
@@ -232,6 +233,16 @@ def prog_tok(prog):
     return ",".join("S" if op[0] == "S" else "C" if op[0] == "C" else "F%d" % op[1] for op in prog) or "-"
 
 
+def gen_fault_ops(rng):
+    """sequential histories in which some submissions hit a failing Thread.start()"""
+    _, _, tail = gen_ops(rng)
+    mx = rng.choice([2, 2, 3])
+    mn = rng.randint(1, mx - 1)
+    # `min` submissions occupy the initial workers, so the next one needs a NEW worker: that start fails
+    ops = [("S",)] * mn + [("Z",)] + [("Z",) if (op[0] == "S" and rng.random() < 0.3) else op for op in tail]
+    return mn, mx, ops
+
+
 def prog_show(prog):
     return ",".join(op[0] if len(op) == 1 else "%s%d" % (op[0], op[1]) for op in prog) or "-"
 
@@ -272,7 +283,7 @@ def monitor(run, sc):
         if rec["status"] in ("n", "x") and rec["runs"]:
             run.violation = ("refused-but-ran", "job %d was refused (%s) and executed" % (k, rec["status"]))
             return
-        if rec["status"] == "n" and rec["max_active"] < run.mx:
+        if rec["status"] == "n" and rec["max_active"] < run.mx and not rec.get("start_failed"):
             # sound reading of "refused only when all workers are busy" for overlapping calls: at some instant of the
             # process() call THREADPOOL_SIZE worker threads were alive and not waiting for a job
             run.violation = ("refused-not-full", "job %d refused with NoFreeWorkersError although at most %d of %d workers "
@@ -282,7 +293,8 @@ def monitor(run, sc):
         if rec["status"] == "a" and rec["after_close"]:
             run.violation = ("job-after-close", "job %d was accepted by process() after close() had returned" % k)
             return
-        if rec["status"].startswith("E:"):
+        if rec["status"].startswith("E:") and not (rec.get("start_failed") and rec["status"] == "E:RuntimeError"):
+            # (a RuntimeError of Thread.start() injected by the harness is the environment's fault and comes out unchanged)
             run.violation = ("process-internal-error", "process() failed with %s" % rec["status"][2:])
             return
 
@@ -491,7 +503,7 @@ def _schedules(ctx, with_model):
             ctx.mismatch("schedules", {"driver": "drv_c18"}, "driver unavailable", repr(e)[:200])
     bound = 3 if ctx.tier == "thorough" else 2
     for (mn, mx, progs), mo in zip(scens, outs):
-        explore_scenario(ctx, mn, mx, progs, bound, ctx.n(180, 1500), ctx.n(40, 300), rng, mo, found)
+        explore_scenario(ctx, mn, mx, progs, bound, ctx.n(140, 1500), ctx.n(30, 300), rng, mo, found)
 
 
 # ------------------------------------------------------------------------------------------------------
@@ -587,6 +599,33 @@ def _sequential(ctx, n):
 # ------------------------------------------------------------------------------------------------------
 # the refusal path end to end: real daemon, THREADPOOL_SIZE=1, second client must read CONNECTFAIL "no free workers"
 # ------------------------------------------------------------------------------------------------------
+def _start_faults(ctx, n):
+    """oracle only (the model has no failing Thread.start): after a submission whose new worker could not be started the
+    pool must be as before — nobody counted busy who is not running, later jobs accepted / refused as usual, close() works"""
+    rng = ctx.sub_rng("startfault")
+    for _ in range(n):
+        mn, mx, ops = gen_fault_ops(rng)
+        if rng.random() < 0.5 and not any(op[0] == "C" for op in ops):
+            ops.append(("C",))
+        snaps, box = [], [None]
+        pol = settle_policy(rng, snaps, box)
+
+        def mon(run, sc):
+            box[0] = run
+            monitor(run, sc)
+        run = R.run_scenario(pol, mn, mx, [ops], monitor=mon)
+        ctx.evaluations += 1
+        ctx.count("startfault:hit" if any(j.get("start_failed") for j in run.jobs) else "startfault:no-new-worker-needed")
+        if any(j.get("start_failed") for j in run.jobs):
+            ctx.nontriv(("startfault", mn, mx, repr(ops)))
+        bad = judge_rest(run)
+        if bad:
+            ctx.fail("pool-fault:" + bad[0], "after a failing Thread.start(): %s; pool min=%d max=%d ops %s"
+                     % (bad[1], mn, mx, prog_show(ops)),
+                     {"min": mn, "max": mx, "progs": [[list(o) for o in ops]], "schedule": [t for t, _ in run.sched.trace]})
+            return
+
+
 def refusal_path(ctx):
     common.repo_on_path()
     import socket
@@ -679,6 +718,7 @@ def refusal_path(ctx):
 def correspondence(ctx):
     common.repo_on_path()
     _sequential(ctx, ctx.n(200, 3000))
+    _start_faults(ctx, ctx.n(60, 800))
     ctx._c18_done = True
     _schedules(ctx, with_model=True)
 
@@ -688,6 +728,7 @@ def oracle(ctx):
     refusal_path(ctx)
     if getattr(ctx, "_c18_done", False) and not ctx.search_mode:
         return        # the exploration in `correspondence` already ran the property oracle on every schedule
+    _start_faults(ctx, ctx.n(60, 800))
     _schedules(ctx, with_model=False)
 
 
